@@ -582,8 +582,18 @@ func callSSA(i *interpreter, caller *frame, callpos token.Pos, fn *ssa.Function,
 	if len(CallStack) > 600 {
 		panic(pathAbort{"engine: call depth budget exceeded"})
 	}
+	depth0 := len(CallStack)
 	CallStack = append(CallStack, fn.String())
-	defer func() { if recover_keep := recover(); recover_keep != nil { panic(recover_keep) }; CallStack = CallStack[:len(CallStack)-1] }()
+	defer func() {
+		if r := recover(); r != nil {
+			if panicStack == nil {
+				panicStack = append([]string{}, CallStack...)
+			}
+			CallStack = CallStack[:depth0]
+			panic(r)
+		}
+		CallStack = CallStack[:depth0]
+	}()
 	fr.env = make(map[ssa.Value]value)
 	fr.block = fn.Blocks[0]
 	fr.locals = make([]value, len(fn.Locals))
@@ -710,6 +720,7 @@ func doRecover(caller *frame) value {
 		caller != nil && !caller.panicking &&
 		caller.caller != nil && caller.caller.panicking {
 		caller.caller.panicking = false
+		panicStack = nil
 		p := caller.caller.panic
 		caller.caller.panic = nil
 
@@ -815,6 +826,9 @@ func Interpret(mainpkg *ssa.Package, mode Mode, sizes types.Sizes, filename stri
 }
 
 var CallStack []string
+
+// panicStack is the call stack at the point where the panic now unwinding was raised.
+var panicStack []string
 
 // callSSABody runs fn's own SSA body even if an external is registered for it.
 var noExternalFor *ssa.Function
